@@ -108,3 +108,40 @@ mutant('C03-R8-unchecked-window-add', ['C03', 'C02'], ['R8|raw', 'C02.R4|raw'],
         } else {
             Err(Reason::FLOW_CONTROL_ERROR)
         }''', '''        Ok(Self(self.0 + other as i32))''')])
+
+# ---------------------------------------------------------------- C10 / C11 / C12 tables
+H = 'src/hpack/'
+mutant('C11-R1-decode-table-entry', ['C11'], ['C11.R1|entry'],
+       'one DECODE_TABLE leaf decodes to the wrong symbol',
+       [(H + 'huffman/table.rs', '''    0x0530, 0x0530, 0x0530, 0x0530, 0x0530, 0x0530, 0x0530, 0x0530, 0x0531, 0x0531, 0x0531, 0x0531,
+    0x0531, 0x0531, 0x0531, 0x0531, 0x0532,''', '''    0x0530, 0x0530, 0x0530, 0x0530, 0x0530, 0x0530, 0x0530, 0x0531, 0x0531, 0x0531, 0x0531, 0x0531,
+    0x0531, 0x0531, 0x0531, 0x0531, 0x0532,''')])
+mutant('C10-R5-encode-table-entry', ['C10'], ['C10.R5|row'],
+       'one ENCODE_TABLE code has a wrong bit length',
+       [(H + 'huffman/table.rs', '''    (13, 0x1ff8),
+    (23, 0x7fffd8),''', '''    (13, 0x1ff8),
+    (24, 0x7fffd8),''')])
+mutant('C10-R1-static-index-off-by-one', ['C10'], ['C10.R1|index_static|accept-language'],
+       'encoder indexes accept-language as static entry 18 (accept-ranges)',
+       [(H + 'table.rs', 'header::ACCEPT_LANGUAGE => Some((17, false)),', 'header::ACCEPT_LANGUAGE => Some((18, false)),')])
+mutant('C11-R3-get-static-wrong-value', ['C11', 'C10'], ['R3|get_static|7', 'C10.R1|get_static|7'],
+       'decoder static entry 7 is :scheme http instead of https',
+       [(H + 'decoder.rs', '7 => Header::Scheme(BytesStr::from_static("https")),', '7 => Header::Scheme(BytesStr::from_static("http")),')])
+mutant('C12-R1-setting-id-writer', ['C12'], ['C12.R1|setting|encode|MaxHeaderListSize'],
+       'Setting::encode writes MAX_HEADER_LIST_SIZE with id 7',
+       [('src/frame/settings.rs', 'MaxHeaderListSize(v) => (6, v),', 'MaxHeaderListSize(v) => (7, v),')])
+mutant('C12-R1-max-frame-size-range', ['C12'], ['C12.R1|range|max_frame_size'],
+       'Settings::load accepts MAX_FRAME_SIZE below 2^14',
+       [('src/frame/settings.rs', 'if DEFAULT_MAX_FRAME_SIZE <= val && val <= MAX_MAX_FRAME_SIZE {', 'if val <= MAX_MAX_FRAME_SIZE {')])
+mutant('C12-R2-head-parse-offset', ['C12'], ['C12.R2|parse|flag'],
+       'Head::parse reads the flags from offset 3',
+       [('src/frame/head.rs', '            flag: header[4],', '            flag: header[3],')])
+mutant('C12-R3-data-size-guard-dropped', ['C12'], ['C12.R3|data'],
+       'Encoder::buffer no longer rejects DATA larger than max_frame_size',
+       [('src/codec/framed_write.rs', '''                if len > self.max_frame_size() {
+                    return Err(PayloadTooBig);
+                }
+''', '')])
+mutant('C12-R4-frame-size-error-code', ['C12'], ['C12.R4|map_err'],
+       'an over-long received frame is reported as PROTOCOL_ERROR instead of FRAME_SIZE_ERROR',
+       [('src/codec/framed_read.rs', 'return Error::library_go_away(Reason::FRAME_SIZE_ERROR);', 'return Error::library_go_away(Reason::PROTOCOL_ERROR);')])
